@@ -1064,7 +1064,36 @@ def oracle_c07(run, ops, impl):
     return out
 
 
+def oracle_c05_supply(run, ops, impl):
+    """evmsupply: per EVM tx the total unibi supply (and the sum of all unibi balances) must not change (zero gas price, whole
+    unibi, no self-destruct to self)."""
+    out = []
+    for i, (op, ob) in enumerate(zip(ops, impl)):
+        kv = dict(x.split("=", 1) for x in (op + " " + ob).split() if "=" in x)
+        res = ob.split()[0]
+        feat = set(kv.get("feat", "-").split("+")) - {"-"}
+        if res == "panic":
+            sig = "C05:panic-in-tx:%s" % ("selfdestruct+precompile" if ("sd" in feat and feat & {"pcmove", "pcfail", "pcquery"}) else "+".join(sorted(feat)) or "-")
+            out.append(V(sig, {"line": i + 1, "op": op}))
+            continue
+        sd, bd = int(kv.get("supplyDelta", "0")), int(kv.get("balancesDelta", "0"))
+        if sd == 0 and bd == 0:
+            continue
+        has_pc = bool(feat & {"pcmove", "pcfail", "pcquery"})
+        undone = res == "vmerr" or bool(feat & {"rev", "pcfail", "toprev"})
+        if has_pc and undone:
+            sig = "C05:supply-changed:tx-with-undone-precompile-frame:%s" % ("increase" if sd > 0 else "decrease")
+        else:
+            sig = "C05:supply-changed:%s:%s" % ("+".join(sorted(feat)) or "plain", "increase" if sd > 0 else "decrease")
+        out.append(V(sig, {"line": i + 1, "op": op, "obs": ob}))
+    return out
+
+
 def oracle_c05(run, ops, impl):
+    if run["model"] == "evmsupply":
+        return oracle_c05_supply(run, ops, impl)
+    if run["model"] != "evmtx":
+        return []
     out = []
     st = None
     for i, (op, ob) in enumerate(zip(ops, impl)):
@@ -1135,12 +1164,19 @@ PROPS["C07"] = {
 }
 PROPS["C05"] = {
     "modules": ["NibiruProofs.C05"],
-    "runs": [{"model": "evmtx", "n_quick": 250, "n_thorough": 4000, "nontrivial": r"^ok A="}],
+    "runs": [{"model": "evmtx", "n_quick": 250, "n_thorough": 4000, "nontrivial": r"^ok A="},
+             {"model": "sdb", "n_quick": 300, "n_thorough": 4000, "nontrivial": r"^P:ACC="},
+             {"model": "evmsupply", "n_quick": 120, "n_thorough": 1500, "no_model": True, "per_line": True, "nontrivial": r"^ok "}],
     "oracle": oracle_c05,
-    "rule": EVMTX_RULE,
+    "rule": EVMTX_RULE + " | sdb: the StateDB model (commit / flush / journal bookkeeping, which decides what reaches the bank) against "
+            "the real StateDB, as in C04 | evmsupply (oracle only): generated multi-frame programs that move NIBI by EVM value "
+            "transfers, CREATE endowments, SELFDESTRUCT and through the FunToken precompile (bank moves of the contract's own funds, "
+            "failing precompile calls, frames that revert around them) through the real msg server at a zero gas price; per tx the "
+            "total unibi supply and the sum of all unibi balances must not change",
     "assumptions": ["gas used and the outcome kind of each message come from the real execution (EVM interpreter is a parameter)",
-                    "contracts that move value internally, self-destruct or call bank-moving precompiles are not generated yet (they are "
-                    "covered by the StateDB model of C03/C04); the supply is observed on the implementation, not modelled"],
+                    "the conservation theorems are over the EvmTx model, in which the EVM run is a parameter that moves value between "
+                    "accounts; for transactions that undo a frame containing a Nibiru precompile call the real StateDB does NOT "
+                    "conserve (known finding C05-undone-precompile-frame, root cause C04-lost-write / C04-stale-balance)"],
 }
 
 
